@@ -534,6 +534,9 @@ fn step(_: &mut (), ws: &[&str]) -> String {
                 let r = if code != 0 {
                     sourmash_err_clear();
                     format!("err {}", code)
+                } else if p.is_null() {
+                    // landingpad caught a panic (no sourmash panic hook installed here: no error code)
+                    "PANIC".to_string()
                 } else {
                     let v: Vec<u64> = std::slice::from_raw_parts(p, size).to_vec();
                     kmerminhash_slice_free(p as *mut u64, size);
